@@ -309,7 +309,7 @@ func idlFieldClasses(m *idlModel) map[string]*genDyn {
 						// regexp-based reader: union of its constant patterns
 						var first, all genCharset
 						okAll := false
-						for _, cs := range callsNamed(callee, false, "regexp.MustCompile") {
+						for _, cs := range compiledPatterns(m.a.p, callee) {
 							if k, isK := cs.Common.Args[0].(*ssa.Const); isK {
 								var pat string
 								fmt.Sscanf(constTerm(k), "const:%q", &pat)
